@@ -449,7 +449,7 @@ pub struct Shape {
     pub variants: Vec<VShape>,
 }
 
-pub const SHAPE_VNAMES: [&str; 6] = ["A", "B", "C", "D", "E", "F"];
+pub const SHAPE_VNAMES: [&str; 12] = ["A", "B", "C", "D", "E", "F", "G", "H", "J", "K", "L", "M"];
 
 /// menu of variant / struct-body shapes with up to `max_n` fields:
 /// unit, tuple(0..=max_n), named(0..=max_n)
